@@ -25,12 +25,12 @@ LEVEL = "exploration"
 RULE = (
     "(1) Fabrication: Hypothesis histories (<=25 steps quick, <=60 thorough) over one order with FIXTester as the exchange: "
     "natural progress steps (ack, partial/full fill, pending cancel/replace, canceled, replaced, reject of a request, "
-    "client cancel / replace) interleaved with probes calling fix_exec_report_msg with EVERY drawn ExecType x OrdStatus and "
+    "client cancel / replace, reset_messages(), reports for further orders registered on the same helper) interleaved with probes calling fix_exec_report_msg with EVERY drawn ExecType x OrdStatus and "
     "drawn cum/leaves/last quantities, price, order qty, ClOrdID in {current, original}, OrigClOrdID, some processed and some "
     "not; fix_cxlrep_reject_msg for every status; the five session factories over their argument ranges. Calls refused by the "
     "helper's own assertions are counted and skipped. Oracle: each fabricated message validates against a FIXSchema of "
-    "tests/FIX44.xml built by the check, CumQty+LeavesQty<=OrderQty, LeavesQty=0 for finished statuses, ExecID never repeats, "
-    "OrderID is the same for all reports of the order, processing by the order object raises nothing. "
+    "tests/FIX44.xml built by the check, CumQty+LeavesQty<=OrderQty, LeavesQty=0 for finished statuses, ExecID never repeats (across reset_messages() and across orders), "
+    "OrderID is the same for all reports of the order and different for different orders, processing by the order object raises nothing. "
     "(2) Fidelity: clean session scripts (Hypothesis lists <= 14 quick / 40 thorough over: initiator Logon, application message "
     "either way, TestRequest either way, Heartbeat either way, optional final Logout from either side; starting counters symmetric "
     "and asymmetric as after a resumed session) replayed against FIXTester(connection=initiator) through its reply / "
@@ -72,7 +72,8 @@ natural = st.tuples(st.just("natural"), st.sampled_from(["pending_new", "ack", "
                                                         "expired", "suspended", "restated", "done_for_day", "trade_while_pending"]), st.sampled_from([0.25, 0.5, 0.1]), st.booleans())
 client = st.tuples(st.just("client"), st.sampled_from(["cancel", "replace-px", "replace-qty", "replace-both"]), st.sampled_from([150.0, 250.5]), st.sampled_from([5.0, 20.0, 12.5]))
 reject = st.tuples(st.just("reject"), st.sampled_from(OSS), st.booleans())
-step = st.one_of(natural, natural, probe, probe, client, reject)
+housekeeping = st.sampled_from([("reset",), ("reset",), ("other-order",)])
+step = st.one_of(natural, natural, probe, probe, client, reject, housekeeping)
 
 
 class Run:
@@ -125,6 +126,8 @@ class Run:
         self.exec_ids.add(eid)
         oid = m.get(FTag.OrderID, None)
         self.order_ids.add(oid)
+        if oid in getattr(self, "other_oids", set()):
+            self.bad("er/orderid-shared", f"two different orders report the same OrderID {oid!r}", i)
         if len(self.order_ids) > 1:
             self.bad("er/orderid-unstable" + ("/before-first-processed" if o.order_id is None else ""),
                      f"reports of one order carry different OrderIDs {sorted(self.order_ids)} (order.order_id={o.order_id!r})", i)
@@ -188,6 +191,32 @@ class Run:
                     self.judge_er(m, (what, kw.get("exec_type"), kw.get("ord_status")), i)
                     if do_process or what in ("ack", "pending_new"):
                         self.process(m, i)
+            elif k == "reset":
+                # the documented way to clear the captured message queues in the middle of a scenario
+                try:
+                    self.ft.reset_messages()
+                    self.flags.add("after-reset")
+                except BaseException as e:  # noqa
+                    self.bad(f"reset/raises/{type(e).__name__}", f"reset_messages raised {type(e).__name__}: {e}", i)
+            elif k == "other-order":
+                # a second, different order on the same helper: its reports take ExecIDs from the same sequence and another OrderID
+                self.n_other = getattr(self, "n_other", 0) + 1
+                o2 = FIXNewOrderSingle(f"clordOther{self.n_other}", "US.F.TICKER", side="2", price=100.0, qty=5.0)
+                try:
+                    self.ft.order_register_single(o2)
+                    m = self.ft.fix_exec_report_msg(o2, o2.clord_id, FExecType.NEW, FOrdStatus.NEW, cum_qty=0.0, leaves_qty=5.0)
+                except BaseException as e:  # noqa
+                    self.bad(f"other-order/raises/{type(e).__name__}", f"{type(e).__name__}: {e}", i)
+                    continue
+                self.fabricated += 1
+                self.flags.add("second-order")
+                eid, oid = m.get(FTag.ExecID, None), m.get(FTag.OrderID, None)
+                if eid in self.exec_ids:
+                    self.bad("er/execid-repeated/other-order", f"ExecID {eid!r} of another order's report used before", i)
+                self.exec_ids.add(eid)
+                if oid in self.order_ids or oid in getattr(self, "other_oids", set()):
+                    self.bad("er/orderid-shared", f"two different orders report the same OrderID {oid!r}", i)
+                self.other_oids = getattr(self, "other_oids", set()) | {oid}
             elif k == "client":
                 _, what, px, q = s
                 try:
@@ -304,6 +333,8 @@ def fab_shard(acc, n, seed, maxlen):
 
 
 FIXED = [
+    [("natural", "ack", 0.5, True), ("natural", "partial", 0.25, True), ("reset",), ("natural", "partial", 0.25, True), ("other-order",), ("natural", "fill", 0.5, True)],
+    [("other-order",), ("natural", "ack", 0.5, True), ("reset",), ("other-order",), ("natural", "partial", 0.5, True)],
     # two reports fabricated back to back before the order processed any (OrderID must be stable)
     [("natural", "pending_new", 0.5, False), ("natural", "ack", 0.5, False), ("natural", "partial", 0.5, True), ("natural", "partial", 0.5, True)],
     [("natural", "ack", 0.5, True), ("client", "cancel", 150.0, 5.0), ("natural", "pending_cancel", 0.5, True), ("natural", "trade_while_pending", 0.5, True),
